@@ -191,6 +191,17 @@ func C18(c *Ctx) {
 						c.CovAdd("deep_debug_cases", 1)
 					}
 				}
+				if ii%5 == 2 {
+					// calls that end before the first rule is entered (a rule name the grammar does not have),
+					// with a state store prepared through InitState: whatever such a call took or set up must
+					// not reach the calls that overlap with it or follow it
+					bad := &mon.Case{ID: fmt.Sprintf("%s/%d/e", u.Pkg, ii), Pkg: u.Pkg, Input: in, Entry: "VerifNoSuchRule", MaxExpr: 200000, MaxEvents: 300, Memo: cs.Memo, Stats: cs.Stats}
+					if u.G.UsesState || !u.HasFlag("-optimize-parser") {
+						bad.Init = 8
+					}
+					cases = append(cases, bad)
+					c.CovAdd("calls_with_unknown_entrypoint", 1)
+				}
 				if ii%4 == 1 {
 					// prefixes of one shared option table (different lengths in different goroutines)
 					cases = append(cases, &mon.Case{ID: fmt.Sprintf("%s/%d/t", u.Pkg, ii), Pkg: u.Pkg, Input: in, TableOpts: 3 + ii%5})
